@@ -19,7 +19,9 @@ func init() { Registry["C09"] = runC09 }
 // A program is a list of ops:  "R" router-level middleware, "A".."D" handler-level middleware of
 // that handler, "+A".."+D" AddHandler, "P"/"S" publisher / subscriber decorator, "!" start (Run the
 // first time, RunHandlers afterwards). A final start is implied.  "~" (first op): handler A is registered under the
-// empty name "".  "Pf"/"Sf": a publisher / subscriber decorator whose first application fails (RunHandlers is retried once).
+// empty name "".  "AB2": two middlewares for A and two for B, each pair passed as a spread slice built on ONE backing array
+// that the caller reuses; "R2x": two router-level middlewares passed as a spread slice that the caller overwrites afterwards.
+// "^" (first op): all handlers share one subscriber object that the application itself wrapped in a transform decorator.
 type c09Prog []string
 
 func c09Enumerate(maxLen int) []c09Prog {
@@ -166,9 +168,21 @@ func runC09(c *Ctx) error {
 			progs[i] = append(c09Prog{"~"}, progs[i]...)
 		}
 	}
+	// the caller keeps (and reuses) the slices it passes; and handlers may share a subscriber the application decorated itself
+	for _, f := range [][]string{
+		strings.Fields("+A +B AB2 R ! "), strings.Fields("R +A +B R2x AB2 A B"), strings.Fields("+A +B R2x ! +C C"),
+		strings.Fields("^ S +A +B S A R"), strings.Fields("^ +A S P +B ! +C S B"),
+	} {
+		progs = append(progs, c09Prog(f))
+	}
+	nex = len(progs)
 	nr := c.Pick(200, 10000)
 	for i := 0; i < nr; i++ {
-		progs = append(progs, c09AddDecorators(c.Rng, c09Random(c.Rng, 20)))
+		p := c09AddDecorators(c.Rng, c09Random(c.Rng, 20))
+		if i%5 == 4 {
+			p = append(c09Prog{"^"}, p...)
+		}
+		progs = append(progs, p)
 	}
 	runs := make([]*tr.Run, len(progs))
 	for i, p := range progs {
@@ -213,6 +227,8 @@ func c09Run(r *tr.Run, prog c09Prog) {
 	var order []string
 	nreg, npd, nsd := 0, 0, 0
 	pendingFailures := 0
+	var sharedSub *scripted.Sub
+	var sharedWrapped message.Subscriber
 	ctx, cancel := context.WithCancel(context.Background())
 	defer cancel()
 	runDone := make(chan struct{})
@@ -307,7 +323,29 @@ func c09Run(r *tr.Run, prog c09Prog) {
 	}
 	for _, op := range prog {
 		switch {
-		case op == "~":
+		case op == "~" || op == "^":
+		case op == "AB2":
+			base := make([]message.HandlerMiddleware, 0, 4) // one backing array, reused by the caller
+			for _, h := range []string{"A", "B"} {
+				var ids []int
+				sl := base
+				for k := 0; k < 2; k++ {
+					nreg++
+					ids = append(ids, nreg)
+					r.Emit("reg", "id", nreg, "scope", h)
+					sl = append(sl, mkMw(nreg))
+				}
+				handles[h].AddMiddleware(sl...)
+			}
+		case op == "R2x":
+			sl := make([]message.HandlerMiddleware, 0, 4)
+			for k := 0; k < 2; k++ {
+				nreg++
+				r.Emit("reg", "id", nreg, "scope", "R")
+				sl = append(sl, mkMw(nreg))
+			}
+			router.AddMiddleware(sl...)
+			sl[0], sl[1] = mkMw(9000), mkMw(9001) // the caller goes on using its slice
 		case op == "Pf":
 			npd++
 			id := npd
@@ -380,10 +418,21 @@ func c09Run(r *tr.Run, prog c09Prog) {
 			}
 		case strings.HasPrefix(op, "+"):
 			h := op[1:]
-			subs[h] = scripted.NewSub("s" + h)
+			var hsub message.Subscriber
+			if len(prog) > 0 && prog[0] == "^" {
+				if sharedSub == nil {
+					sharedSub = scripted.NewSub("shared")
+					sharedWrapped, _ = message.MessageTransformSubscriberDecorator(func(*message.Message) {})(sharedSub)
+				}
+				subs[h] = sharedSub
+				hsub = sharedWrapped
+			} else {
+				subs[h] = scripted.NewSub("s" + h)
+				hsub = subs[h]
+			}
 			pubs[h] = scripted.NewPub("p" + h)
 			r.Emit("addh", "h", h)
-			handles[h] = router.AddHandler(regName(h), "t"+h, subs[h], "out"+h, pubs[h], func(msg *message.Message) ([]*message.Message, error) {
+			handles[h] = router.AddHandler(regName(h), "t"+h, hsub, "out"+h, pubs[h], func(msg *message.Message) ([]*message.Message, error) {
 				return []*message.Message{message.NewMessage(msg.UUID+".o", nil)}, nil
 			})
 			order = append(order, h)
